@@ -122,6 +122,9 @@ SITES = {
     'dict-attr-unquoted-static': ('<p a=s tal:attributes="{\'a\': v}">t</p>', ('attr-whole', 'a', '"')),
     'dict-attr': ('<p tal:attributes="{\'a\': v}">t</p>', ('attr-whole', 'a', '"')),
     'comment': ('<!--' + A + '${v}' + B + '-->', 'comment'),
+    # the text of script and style elements is element text like any other
+    'script-text': ('<script>var a = 1; ' + A + '${v}' + B + ' // c</script>', 'text'),
+    'style-text': ('<style type="text/css">p { content: ' + A + '${v}' + B + ' }</style>', 'text'),
     # a processing instruction (other than <?python): its data is text like any other
     'processing-instruction': ('<?foo ' + A + '${v}' + B + ' ?>', 'text'),
     'processing-instruction-attr': ('<?xml-stylesheet href="' + A + '${v}' + B + '" ?>', 'text'),
@@ -255,7 +258,7 @@ def structure_of(out):
 # assembled by chameleon.i18n.simple_translate from the mapping of the named parts; with the implicit options the
 # plain text and attribute sites go the same way
 DEFAULT_TR_SITES = ('in-translate', 'i18n-name', 'i18n-name-content', 'i18n-name-attr', 'two-names', 'text', 'dq-attr',
-                    'content', 'tal-attr-direct', 'string-content')
+                    'content', 'tal-attr-direct', 'string-content', 'script-text', 'style-text')
 IMPLICIT_CFG = {'implicit_i18n_translate': True, 'implicit_i18n_attributes': ['a']}
 
 
@@ -330,8 +333,79 @@ def check_optout(ctx, name, vname, v):
                       % (name, v, src, out, want), {'kind': 'optout', 'name': name, 'value': vname})
 
 
+# ---------------------------------------------------------------------------
+# one value, many sites: the same value (the same object, or an equal one) inserted at several places of different kinds
+# in ONE rendering - text first and attributes later, double-quoted before single-quoted ... - including values long
+# enough that an engine might want to remember how it escaped them.  Every place is judged on its own.
+MANY_KINDS = {
+    'text': ('<s%(i)d>[%(i)d[${%(var)s}]%(i)d]</s%(i)d>', 'text', None),
+    'dq': ('<s%(i)d a="[%(i)d[${%(var)s}]%(i)d]">t</s%(i)d>', 'attr', '"'),
+    'sq': ("<s%(i)d a='[%(i)d[${%(var)s}]%(i)d]'>t</s%(i)d>", 'attr', "'"),
+    'tal-dq': ('<s%(i)d tal:attributes="a %(var)s">t</s%(i)d>', 'attr-whole', '"'),
+    'tal-sq': ("<s%(i)d a='s' tal:attributes=\"a %(var)s\">t</s%(i)d>", 'attr-whole', "'"),
+    'dict': ("<s%(i)d tal:attributes=\"{'a': %(var)s}\">t</s%(i)d>", 'attr-whole', '"'),
+    'content': ('<s%(i)d tal:content="%(var)s">x</s%(i)d>', 'text-whole', None),
+    'string-sq': ("<s%(i)d a='s' tal:attributes=\"a string:[%(i)d[${%(var)s}]%(i)d]\">t</s%(i)d>", 'attr', "'"),
+}
+MANY_VALUES = [('all', 'a<b>&"\'c'), ('long-quotes', ('say "hi" & it\'s <ok> ') * 5), ('very-long', ('"' + "'" + '<&>x') * 120),
+               ('sixty-five', '"' * 33 + "'" * 32), ('dq-run', 'x"y' * 30), ('sq-run', "x'y" * 30), ('amp-long', '&amp; ' * 40),
+               ('attr-break-long', 'p' * 70 + '" onmouseover="x'), ('attr-break-sq-long', 'p' * 70 + "' onmouseover='x")]
+
+
+def layer_one_value_many_sites(ctx, n):
+    from chameleon import PageTemplate
+    rng = ctx.rng
+    for case in range(n):
+        vname, v = rng.choice(MANY_VALUES)
+        kinds = [rng.choice(sorted(MANY_KINDS)) for _ in range(rng.randint(2, 5))]
+        # an equal value that is another object (w) stands in for some of the places
+        vars_ = [rng.choice(['v', 'v', 'w']) for _ in kinds]
+        src = '<root>' + ''.join(MANY_KINDS[k][0] % {'i': i, 'var': vars_[i]} for i, k in enumerate(kinds)) + '</root>'
+        replay = {'kind': 'many', 'src': src, 'value': vname}
+        ctx.mon('one-value-many-sites')
+        ctx.case(key=('many', tuple(kinds), tuple(vars_), vname), nontrivial=True)
+        try:
+            t = PageTemplate(src)
+            out = t(v=v, w=''.join(list(v)))
+            safe = t(v='SAFE', w='SAFE')
+        except Exception as e:
+            ctx.violation('site-raised:many-sites', 'template %r with value %r: %s: %s' % (src, v, type(e).__name__, str(e)[:100]), replay)
+            continue
+        what = 'value %r inserted at the places %r of one rendering: template %r rendered %r' % (v, kinds, src, out)
+        if structure_of(out) != structure_of(safe):
+            ctx.violation('structure-changed:many-sites', what, replay)
+            continue
+        tags = {tag: attrs for tag, attrs, raw in reader.start_tags(out)}
+        for i, k in enumerate(kinds):
+            tpl, region, quote = MANY_KINDS[k]
+            if region in ('text', 'text-whole'):
+                m = re.search((r'\[%d\[(.*?)\]%d\]' % (i, i)) if region == 'text' else (r'<s%d>(.*?)</s%d>' % (i, i)), out, re.S)
+                raw = m.group(1) if m else None
+            else:
+                raw = None
+                for nm, q, val in tags.get('s%d' % i, []):
+                    if nm == 'a':
+                        if q != quote:
+                            raw = None
+                            break
+                        raw = val
+                        if region == 'attr':
+                            m = re.search(r'\[%d\[(.*?)\]%d\]' % (i, i), val, re.S)
+                            raw = m.group(1) if m else None
+            if raw is None:
+                ctx.violation('region-not-found:many-sites', what + ' (place %d, %s)' % (i, k), replay)
+                break
+            probs = raw_problems(raw, quote)
+            if reader.unescape_literal(raw) != v:
+                probs.append('un-escaped region %r != the value' % reader.unescape_literal(raw)[:60])
+            if probs:
+                ctx.violation('not-escaped:many-sites:' + k, what + ': place %d (%s): %s' % (i, k, '; '.join(probs)), replay)
+                break
+
+
 def run(ctx):
     monitors.install(ctx, tokalg=False)
+    layer_one_value_many_sites(ctx, 25 if ctx.quick else 250)
     work = [(s, w, hn, hv) for s in sorted(SITES) for w in sorted(WRAPPERS) for hn, hv in HOSTILE]
     rng = ctx.rng
     if ctx.quick:
@@ -378,6 +452,10 @@ def run(ctx):
 
 
 def replay(data):
+    if data.get('kind') == 'many':
+        from chameleon import PageTemplate
+        v = dict(MANY_VALUES)[data['value']]
+        return True, 'template %r value %r -> %r' % (data['src'], v, PageTemplate(data['src'])(v=v, w=''.join(list(v))))
     vals = dict(HOSTILE)
     v = vals[data['value']]
     if data.get('kind') == 'optout':
